@@ -1,5 +1,6 @@
 use std::io;
 use std::io::Read;
+use crate::json::read_utf8_char;
 use crate::symbol::SYMBOL;
 
 #[cfg(test)]
@@ -14,7 +15,7 @@ pub mod object;
 
 pub struct RawUnprocessedJSONArray;
 impl RawUnprocessedJSONArray {
-    // the array is read byte by byte: a byte of a multi-byte character is not a character on its own
+    // the array is read character by character: bytes that are not a UTF-8 character are an error
     fn read_utf8(bytes: Vec<u8>) -> Result<String, String> {
         let boxed_string = String::from_utf8(bytes);
         if boxed_string.is_err() {
@@ -46,13 +47,13 @@ impl RawUnprocessedJSONArray {
 
             let byte = 0;
             let mut char_buffer = vec![byte];
-            let length = char_buffer.len();
-            let boxed_read = cursor.read_exact(&mut char_buffer);
+            let boxed_read = read_utf8_char(&mut cursor, &mut char_buffer);
             if boxed_read.is_err() {
                 let message = boxed_read.err().unwrap().to_string();
                 return Err(message);
             }
             boxed_read.unwrap();
+            let length = char_buffer.len();
             bytes_read = bytes_read + length as i128;
             is_end_of_json_string = total_bytes == bytes_read;
             if is_end_of_json_string {
@@ -79,13 +80,13 @@ impl RawUnprocessedJSONArray {
 
             let byte = 0;
             let mut char_buffer = vec![byte];
-            let length = char_buffer.len();
-            let boxed_read = cursor.read_exact(&mut char_buffer);
+            let boxed_read = read_utf8_char(&mut cursor, &mut char_buffer);
             if boxed_read.is_err() {
                 let message = boxed_read.err().unwrap().to_string();
                 return Err(message);
             }
             boxed_read.unwrap();
+            let length = char_buffer.len();
             bytes_read = bytes_read + length as i128;
             let mut char = RawUnprocessedJSONArray::read_utf8(char_buffer)?.chars().last().unwrap();
 
@@ -103,7 +104,7 @@ impl RawUnprocessedJSONArray {
                     while not_end_of_string_property_value {
                         let byte = 0;
                         char_buffer = vec![byte];
-                        let boxed_read = cursor.read_exact(&mut char_buffer);
+                        let boxed_read = read_utf8_char(&mut cursor, &mut char_buffer);
                         if boxed_read.is_err() {
                             let message = boxed_read.err().unwrap().to_string();
                             return Err(message);
@@ -125,13 +126,13 @@ impl RawUnprocessedJSONArray {
                         while read_till_end_of_whitespace {
                             let byte = 0;
                             let mut char_buffer = vec![byte];
-                            let length = char_buffer.len();
-                            let boxed_read = cursor.read_exact(&mut char_buffer);
+                            let boxed_read = read_utf8_char(&mut cursor, &mut char_buffer);
                             if boxed_read.is_err() {
                                 let message = boxed_read.err().unwrap().to_string();
                                 return Err(message);
                             }
                             boxed_read.unwrap();
+                            let length = char_buffer.len();
                             bytes_read = bytes_read + length as i128;
                             char = RawUnprocessedJSONArray::read_utf8(char_buffer)?.chars().last().unwrap();
 
@@ -231,13 +232,13 @@ impl RawUnprocessedJSONArray {
 
                         let byte = 0;
                         let mut char_buffer = vec![byte];
-                        let length = char_buffer.len();
-                        let boxed_read = cursor.read_exact(&mut char_buffer);
+                        let boxed_read = read_utf8_char(&mut cursor, &mut char_buffer);
                         if boxed_read.is_err() {
                             let message = boxed_read.err().unwrap().to_string();
                             return Err(message);
                         }
                         boxed_read.unwrap();
+                        let length = char_buffer.len();
                         bytes_read = bytes_read + length as i128;
                         let char = RawUnprocessedJSONArray::read_utf8(char_buffer)?.chars().last().unwrap();
 
@@ -274,13 +275,13 @@ impl RawUnprocessedJSONArray {
 
                         let byte = 0;
                         let mut char_buffer = vec![byte];
-                        let length = char_buffer.len();
-                        let boxed_read = cursor.read_exact(&mut char_buffer);
+                        let boxed_read = read_utf8_char(&mut cursor, &mut char_buffer);
                         if boxed_read.is_err() {
                             let message = boxed_read.err().unwrap().to_string();
                             return Err(message);
                         }
                         boxed_read.unwrap();
+                        let length = char_buffer.len();
                         bytes_read = bytes_read + length as i128;
                         let char = RawUnprocessedJSONArray::read_utf8(char_buffer)?.chars().last().unwrap();
 
@@ -336,13 +337,13 @@ impl RawUnprocessedJSONArray {
 
                         let byte = 0;
                         let mut char_buffer = vec![byte];
-                        let length = char_buffer.len();
-                        let boxed_read = cursor.read_exact(&mut char_buffer);
+                        let boxed_read = read_utf8_char(&mut cursor, &mut char_buffer);
                         if boxed_read.is_err() {
                             let message = boxed_read.err().unwrap().to_string();
                             return Err(message);
                         }
                         boxed_read.unwrap();
+                        let length = char_buffer.len();
                         bytes_read = bytes_read + length as i128;
                         char = RawUnprocessedJSONArray::read_utf8(char_buffer)?.chars().last().unwrap();
 
@@ -383,13 +384,13 @@ impl RawUnprocessedJSONArray {
                             while read_till_end_of_whitespace {
                                 let byte = 0;
                                 let mut char_buffer = vec![byte];
-                                let length = char_buffer.len();
-                                let boxed_read = cursor.read_exact(&mut char_buffer);
+                                let boxed_read = read_utf8_char(&mut cursor, &mut char_buffer);
                                 if boxed_read.is_err() {
                                     let message = boxed_read.err().unwrap().to_string();
                                     return Err(message);
                                 }
                                 boxed_read.unwrap();
+                                let length = char_buffer.len();
                                 bytes_read = bytes_read + length as i128;
                                 char = RawUnprocessedJSONArray::read_utf8(char_buffer)?.chars().last().unwrap();
 
@@ -460,13 +461,13 @@ impl RawUnprocessedJSONArray {
 
             let byte = 0;
             let mut char_buffer = vec![byte];
-            let length = char_buffer.len();
-            let boxed_read = cursor.read_exact(&mut char_buffer);
+            let boxed_read = read_utf8_char(&mut cursor, &mut char_buffer);
             if boxed_read.is_err() {
                 let message = boxed_read.err().unwrap().to_string();
                 return Err(message);
             }
             boxed_read.unwrap();
+            let length = char_buffer.len();
             bytes_read = bytes_read + length as i128;
             let char = RawUnprocessedJSONArray::read_utf8(char_buffer)?.chars().last().unwrap();
 
